@@ -5,7 +5,7 @@
    without '\n'; the reader follows ANY schedule [sch] of read sizes. *)
 From Coq Require Import ZArith List Bool.
 From RM Require Import Base.Word C08.Model C11.Model C09.Model C09.Grammar C09.Driver C09.Proofs C09.ProofsBytes C09.ProofsFinish C09.ProofsFinal C09.ProofsTrace C09.Circular C09.ProofsCircular C09.ProofsLines C09.ProofsTable.
-From RM Require C09.Pins C09.PinsMem C08.Proofs.
+From RM Require C09.Pins C09.PinsMem C08.Proofs C09.PinsNum Gen.C09Numeric.
 Import ListNotations.
 Open Scope Z_scope.
 
@@ -489,4 +489,60 @@ Example c09_nonvacuous_ranges :
   end) = ([(18446744073709551600, 18446744073709551615); (18446744073709551600, 18446744073709551614);
            (16, 31); (20, 31); (16, 19)],
           ([(16, 19); (20, 31)], [[(18446744073709551600, 18446744073709551615)]])).
+Proof. vm_compute. reflexivity. Qed.
+
+(* The numeric helpers of parser.rs, `hex_str::<u32>` / `hex_str::<u64>` / `decimal_u32`, COMPILED from the Rust source
+   (translate/c09_numeric.py -> Gen/C09Numeric.v: every statement one `let` / `do`, `+` `*` `+=` as the checked operators of
+   both build profiles, `&input[k..]` as a slice site) are, on the bytes of every run-length encoded line and in both
+   profiles, the number recognisers of Grammar.v - in particular they never panic (`res * 10 + digit` stays below 2^64 within
+   MAX_LEN digits, `res << 4` never loses a bit within size_of::<T>() * 2 digits, k <= input.len()). *)
+Theorem c09_numeric_helpers_are_source :
+  forall (p : profile) (s : rle),
+    C09Numeric.hex_str_src p 4 (PinsNum.expand s) = Ret (PinsNum.lift (hex_str 8%nat s)) /\
+    C09Numeric.hex_str_src p 8 (PinsNum.expand s) = Ret (PinsNum.lift (hex_str 16%nat s)) /\
+    C09Numeric.decimal_u32_src p (PinsNum.expand s) = Ret (PinsNum.lift (decimal_u32 s)).
+Proof.
+  intros p s. split; [apply (PinsNum.hex_src_is_grammar p 4 8%nat); left; split; reflexivity|].
+  split; [apply (PinsNum.hex_src_is_grammar p 8 16%nat); right; split; reflexivity|apply PinsNum.dec_src_is_grammar].
+Qed.
+Print Assumptions c09_numeric_helpers_are_source.
+
+(* What the compiled functions accept, declaratively, for EVERY byte list (any integer as a byte) and both profiles:
+   hex_str: an error iff the input does not start with a hex digit; otherwise exactly the longest prefix of at most 8 / 16 hex
+   digits is consumed and the result is its positional value, below 2^32 / 2^64.  decimal_u32: an error iff the input does not
+   start with a decimal digit or the value of the longest prefix of at most 10 digits exceeds u32::MAX (an eleventh digit is
+   left in the input).  A byte >= 0x80 is not a digit of either kind (class of seeded C09-7). *)
+Theorem c09_numeric_grammar :
+  forall (p : profile) (input : list Z),
+    (forall sz nd, (sz = 4 /\ nd = 8%nat) \/ (sz = 8 /\ nd = 16%nat) ->
+       (C09Numeric.hex_str_src p sz input = Ret None /\ PinsNum.hex_stops input) \/
+       (exists ds rest, C09Numeric.hex_str_src p sz input = Ret (Some (rest, PinsNum.dvalue hexval 16 0 ds)) /\
+                        input = ds ++ rest /\ ds <> [] /\ (length ds <= nd)%nat /\ PinsNum.hexdigits ds /\
+                        (length ds = nd \/ PinsNum.hex_stops rest) /\
+                        0 <= PinsNum.dvalue hexval 16 0 ds < 2 ^ (8 * sz))) /\
+    ((C09Numeric.decimal_u32_src p input = Ret None /\ PinsNum.dec_stops input) \/
+     (exists ds rest, input = ds ++ rest /\ ds <> [] /\ (length ds <= 10)%nat /\ PinsNum.decdigits ds /\
+                      (length ds = 10%nat \/ PinsNum.dec_stops rest) /\ 0 <= PinsNum.dvalue decval 10 0 ds < 10 ^ 10 /\
+                      C09Numeric.decimal_u32_src p input =
+                      Ret (if PinsNum.dvalue decval 10 0 ds <=? U32MAX
+                           then Some (rest, PinsNum.dvalue decval 10 0 ds) else None))) /\
+    (forall b, 128 <= b -> hexval b = None /\ decval b = None).
+Proof.
+  intros p input. split; [intros sz nd H; exact (PinsNum.hex_src_grammar p sz nd H input)|].
+  split; [exact (PinsNum.dec_src_grammar p input)|exact PinsNum.non_ascii_no_digit].
+Qed.
+Print Assumptions c09_numeric_grammar.
+
+(* non-vacuity: "1aF9z" -> 0x1af9, rest "z"; nine hex digits into a u32: eight consumed; a byte 0xC8 first: error;
+   "4294967295 " accepted, "4294967296" too large, eleven digits: ten consumed (1 < u32::MAX), rest "1"; "" : error *)
+Example c09_nonvacuous_numeric :
+  (C09Numeric.hex_str_src Debug 4 [49; 97; 70; 57; 122],
+   C09Numeric.hex_str_src Debug 4 [49; 50; 51; 52; 53; 54; 55; 56; 57],
+   C09Numeric.hex_str_src Release 8 [200; 49],
+   C09Numeric.decimal_u32_src Debug [52; 50; 57; 52; 57; 54; 55; 50; 57; 53; 32],
+   C09Numeric.decimal_u32_src Debug [52; 50; 57; 52; 57; 54; 55; 50; 57; 54],
+   C09Numeric.decimal_u32_src Release [48; 48; 48; 48; 48; 48; 48; 48; 48; 49; 49],
+   C09Numeric.decimal_u32_src Debug [])
+  = (Ret (Some ([122], 6905)), Ret (Some ([57], 305419896)), Ret None,
+     Ret (Some ([32], 4294967295)), Ret None, Ret (Some ([49], 1)), Ret None).
 Proof. vm_compute. reflexivity. Qed.
